@@ -582,6 +582,17 @@ def fail_key(ast, version, extvars, res):
     if (diff == 'value' or diff.startswith('error-unexpected')) and early_exit_shape(node) \
             and node[0] in ('filter', 'map', 'for', 'some', 'every', 'seq'):
         return 'C08/focus-not-restored-after-early-exit-consumer/%s' % diff.split(':')[0], node, r
+    if diff in ('value', 'type', 'zero-sign') and any(n[0] == 'lit' and n[1] == 'float' for n in ml.walk(node)):
+        # is the engine's answer what the model gives when xs:float is held in double precision (listed deviation)?
+        ml.FLOAT_AS_DOUBLE[0] = True
+        try:
+            alt = judge(node, version, extvars)
+        except Exception:
+            alt = None
+        finally:
+            ml.FLOAT_AS_DOUBLE[0] = False
+        if alt is not None and alt['status'] == 'ok':
+            return 'C08/xs-float-held-in-double-precision/%s' % label(node), node, r
     cls = arg_class(node, version, extvars, diff)
     return 'C08/%s/%s/%s' % (label(node), cls, diff), node, r
 
@@ -1385,6 +1396,12 @@ def equiv_verdict(case, out, rel, version, extvars, ta, tb, ea, eb, ma, mb):
         out.fail('C08/equiv/%s%s/%s-deviates' % (rel, cls, '+'.join(sides) or 'unknown'),
                  {'lhs': ta, 'rhs': tb, 'version': version, 'vars': extvars, 'lhs_got': ea, 'rhs_got': eb,
                   'model': ml.describe_seq(ma[1])})
+
+
+def engine_only(kind, case):
+    """the engine's share of a case (used to tell a slow model/classification from a slow engine)"""
+    if kind == 'prog':
+        engine_eval(ml.render(case['e']), case['v'], case.get('vars', {}))
 
 
 def check_case(kind, case):
